@@ -141,6 +141,17 @@ type knownFinding struct {
 
 const verifDir = "/verif"
 
+// outDir is where replays, work files and the evidence file go: /verif, unless
+// VERIF_OUT redirects them (used only when the checks are pointed at a scratch
+// copy of the repository to validate them against seeded changes; the
+// registered commands never set it).
+func outDir() string {
+	if d := os.Getenv("VERIF_OUT"); d != "" {
+		return d
+	}
+	return verifDir
+}
+
 func hash64(s string) uint64 {
 	h := fnv.New64a()
 	h.Write([]byte(s))
@@ -236,7 +247,7 @@ func (r *Run) addViolation(c *C, sig, what string, detail interface{}) {
 	r.viol[sig] = v
 	if !c.Replay {
 		name := fmt.Sprintf("%s-%s-%d-%d-%x.json", r.Spec.Property, sanitize(c.Sub.Name), r.Seed, c.I, hash64(sig)&0xffff)
-		path := filepath.Join(verifDir, "replays", name)
+		path := filepath.Join(outDir(), "replays", name)
 		os.MkdirAll(filepath.Dir(path), 0o755)
 		b, err := json.MarshalIndent(v, "", " ")
 		if err != nil {
@@ -402,7 +413,7 @@ type childResult struct {
 }
 
 func workDir() string {
-	d := filepath.Join(verifDir, "work")
+	d := filepath.Join(outDir(), "work")
 	os.MkdirAll(d, 0o755)
 	return d
 }
@@ -768,7 +779,7 @@ func supervise(spec *Spec, tier string, seed int64, workers int) int {
 			}
 			v := &violation{Signature: sig, What: what, Sub: cs.sub, Index: cs.idx, Seed: seed, Tier: tier, Property: spec.Property, Detail: map[string]interface{}{"log_tail": itail}}
 			name := fmt.Sprintf("%s-%s-%d-%d-%s.json", spec.Property, sanitize(cs.sub), seed, cs.idx, kind)
-			path := filepath.Join(verifDir, "replays", name)
+			path := filepath.Join(outDir(), "replays", name)
 			os.MkdirAll(filepath.Dir(path), 0o755)
 			jb, _ := json.MarshalIndent(v, "", " ")
 			os.WriteFile(path, jb, 0o644)
@@ -827,7 +838,7 @@ func supervise(spec *Spec, tier string, seed int64, workers int) int {
 				total.Known[sig] = kw
 				continue
 			}
-			path := filepath.Join(verifDir, "replays", fmt.Sprintf("%s-race-%x.json", spec.Property, hash64(key)&0xffffff))
+			path := filepath.Join(outDir(), "replays", fmt.Sprintf("%s-race-%x.json", spec.Property, hash64(key)&0xffffff))
 			jb, _ := json.MarshalIndent(map[string]interface{}{"signature": sig, "property": spec.Property, "what": "data race reported by the Go race detector", "seed": seed, "tier": tier, "race_logs": filepath.Join(wd, spec.Property+".race.*")}, "", " ")
 			os.WriteFile(path, jb, 0o644)
 			total.Violations = append(total.Violations, &violation{Signature: sig, What: "data race: " + key, Replay: path})
@@ -845,8 +856,8 @@ func supervise(spec *Spec, tier string, seed int64, workers int) int {
 		"violations":  nviol,
 	}
 	eb, _ := json.MarshalIndent(ev, "", " ")
-	os.MkdirAll(filepath.Join(verifDir, "evidence"), 0o755)
-	os.WriteFile(filepath.Join(verifDir, "evidence", spec.Property+".json"), eb, 0o644)
+	os.MkdirAll(filepath.Join(outDir(), "evidence"), 0o755)
+	os.WriteFile(filepath.Join(outDir(), "evidence", spec.Property+".json"), eb, 0o644)
 
 	for _, sig := range knownList {
 		fmt.Printf("KNOWN-FINDING: property=%s %s [%s]\n", spec.Property, total.Known[sig], sig)
